@@ -587,16 +587,16 @@ def run(ctx):
     for fl in flavours(ctx):
         ctx.unit = fl
         ctx.doc('C15.9', 'native API forwarding: each public entry point of this property reaches the implementation of the same name with its parameters in order and returns its result (sibling slips such as trylock -> lock, signal -> broadcast, swapped arguments)')
-        lib.native_forwarding(ctx, 'C15.9', fl, lambda n: n in ('myth_init', 'myth_init_ex', 'myth_fini', 'myth_get_worker_num', 'myth_get_num_workers') or n.startswith('myth_globalattr_'), floor=10)
-        rule6_progress(ctx, fl)
-        rule8_internal_barrier(ctx, fl)
-        rule7_worker_record(ctx, fl)
-        rule1_init(ctx, fl)
-        rule2_noabort(ctx, fl)
-        rule3_bounds(ctx, fl)
-        rule4_signed(ctx, fl)
-        rule4_attr_defined(ctx, fl)
-        rule5_getters(ctx, fl)
+        ctx.attempt(lib.native_forwarding, ctx, 'C15.9', fl, lambda n: n in ('myth_init', 'myth_init_ex', 'myth_fini', 'myth_get_worker_num', 'myth_get_num_workers') or n.startswith('myth_globalattr_'), floor=10)
+        ctx.attempt(rule6_progress, ctx, fl)
+        ctx.attempt(rule8_internal_barrier, ctx, fl)
+        ctx.attempt(rule7_worker_record, ctx, fl)
+        ctx.attempt(rule1_init, ctx, fl)
+        ctx.attempt(rule2_noabort, ctx, fl)
+        ctx.attempt(rule3_bounds, ctx, fl)
+        ctx.attempt(rule4_signed, ctx, fl)
+        ctx.attempt(rule4_attr_defined, ctx, fl)
+        ctx.attempt(rule5_getters, ctx, fl)
         ctx.doc('C15.10', 'global attribute accessors: myth_globalattr_set_<X> stores its argument in field X (of the given object or of '
                 'g_attr) and nothing else, get_<X> reads the same field - "runs with the number of workers / stack size requested '
                 'through the global attributes" presupposes that the request lands in the field initialisation reads')
@@ -606,7 +606,7 @@ def run(ctx):
         lib.accessor_agreement(ctx, 'C15.10', vg, 'myth_globalattr_t', 'myth_globalattr_set_%s_body', 'myth_globalattr_get_%s_body',
                                dict((x, [(1, x)]) for x in NAMES), null_default='g_attr')
         ctx.floor('C15.10', 20)
-        rule5_workers(ctx, fl)
+        ctx.attempt(rule5_workers, ctx, fl)
 
 
 INITC = 'src/myth_init.c'
